@@ -1,5 +1,6 @@
 (* C10  Override keys replace instead of merging.  Statements only. *)
-From RV Require Import Model.Mapping Model.Yaml Spec.DeepMerge Proofs.MappingFacts Proofs.DeepMergeFacts.
+From RV Require Import Model.Mapping Model.Yaml Model.Interp Model.Run Spec.DeepMerge Proofs.MappingFacts Proofs.DeepMergeFacts
+     Proofs.Refinement.
 
 (** An override (marker ~ or the override flag carried by a merged mapping's entry) on a
     present, non-constant key replaces the value in place: whatever earlier layers contributed
@@ -71,3 +72,28 @@ Example C10_nonvacuous :
   let m := [mk_entry (VStr "k") (VList [VMap []; VLit "x"]) false false] in
   insert_impl m (VStr "~k") (VSeq []) false false = Ok [mk_entry (VStr "k") (VSeq []) false false].
 Proof. reflexivity. Qed.
+
+(** End to end, at any nesting depth (through the refinement theorem of C02): for a stack of
+    reference-free clean layers, the render is the specification's value -- in which an override
+    key holds only what the override and the layers after it contribute (C10_spec_override_discards),
+    whatever kind the discarded layers had. *)
+Theorem C10_render_is_the_specified_value_at_any_depth :
+  forall f ys v, ys <> [] -> Forall layer_ok ys ->
+    deep_merge (S f) ys = SOk v ->
+    exists F0, forall F, F0 <= F ->
+      exists v', (m <- Run.merge_layers ys ;; render_with_self F (VMap m)) = Ok v' /\ unflag v' = v.
+Proof.
+  intros f ys v Hne Hl Hs. destruct (run_value_refines_deep_merge f ys Hne Hl) as [F0 H]. exists F0. intros F HF.
+  specialize (H F HF). rewrite Hs in H. exact H.
+Qed.
+Eval cbv in "ASSUMPTIONS-OF C10_render_is_the_specified_value_at_any_depth"%string. Print Assumptions C10_render_is_the_specified_value_at_any_depth.
+
+(** non-vacuity: a nested override replaces a mapping by a scalar although an earlier pair of
+    layers conflicts *)
+Example C10_nested_override_nonvacuous :
+  let l1 := YMap [(YStr "a", YMap [(YStr "k", YMap [(YStr "x", YNum (NInt 1))])])] in
+  let l2 := YMap [(YStr "a", YMap [(YStr "k", YSeq [YNum (NInt 2)])])] in
+  let l3 := YMap [(YStr "a", YMap [(YStr "~k", YStr "s")])] in
+  Forall layer_ok [l1; l2; l3] /\
+  deep_merge 6 [l1; l2; l3] = SOk (VMap [(VStr "a", VMap [(VStr "k", VLit "s", false, false)], false, false)]).
+Proof. cbn zeta. split; [prove_layer_ok | vm_compute; reflexivity]. Qed.
